@@ -36,7 +36,7 @@ PXF = {"": Fraction(1), "px": Fraction(1), "pt": Fraction(4, 3), "pc": Fraction(
 INF_EXACT = {"in": Fraction(1), "cm": Fraction(100, 254), "mm": Fraction(10, 254)}
 INF_LIB = {"in": Fraction(1), "cm": Fraction("0.393701"), "mm": Fraction("0.0393701")}
 OPS = ["+", "-", "/", "<", "<=", "=="]
-MANDATORY_LABELS = {"quick": ["op:%s" % o for o in OPS] + ["value:%s" % (u or "none") for u in UNITS] + ["to:mm", "to:cm", "to:inch"] + ["fontunit:px", "fontunit:pt", "fontunit:pc", "fontunit:none", "value:extreme-factors"] + ["relunit:%s" % u for u in ("px", "pt", "pc", "in", "cm", "mm", "em", "ex", "vw", "vh", "vmin", "vmax")]}
+MANDATORY_LABELS = {"quick": ["op:%s" % o for o in OPS] + ["value:%s" % (u or "none") for u in UNITS] + ["to:mm", "to:cm", "to:inch"] + ["fontunit:px", "fontunit:pt", "fontunit:pc", "fontunit:none", "value:extreme-factors", "value:zero-reference"] + ["relunit:%s" % u for u in ("px", "pt", "pc", "in", "cm", "mm", "em", "ex", "vw", "vh", "vmin", "vmax")]}
 MANDATORY_LABELS["thorough"] = MANDATORY_LABELS["quick"]
 
 AMOUNT_PAIRS = [("2", "3"), ("3", "2"), ("1.5", "-4"), ("-2.25", "0.5"), ("10", "10"), ("1e1", ".25"), ("0", "7"), ("5", "0")]
@@ -138,7 +138,8 @@ def decode(d):
             }
         return {
             "kind": "value", "a": amount_text(d) + u, "ppi": d.choice([72, 96, 100, 254, 300]), "give": d.chance(6, 8),
-            "rel": gen.loguniform(d, -1.0, 4.0, signed=False), "relkind": d.choice(["number", "string", "length", "unit-string"]),
+            # (a reference of exactly zero - a degenerate viewport - is a reference like any other: p% of 0 is 0)
+            "rel": gen.loguniform(d, -1.0, 4.0, signed=False) if not d.chance(1, 12) else d.choice([0.0, 0, -0.0]), "relkind": d.choice(["number", "string", "length", "unit-string"]),
             "relunit": d.choice(["px", "px", "pt", "pc", "in", "cm", "mm", "em", "ex", "vw", "vh", "vmin", "vmax"]),
             "fontunit": d.choice([None, None, "px", "pt", "pc", ""]),  # font metrics given as numbers or as Length objects
             "fs": gen.loguniform(d, 0.0, 2.0, signed=False), "fh": gen.loguniform(d, 0.0, 2.0, signed=False),
@@ -218,6 +219,8 @@ def check_value(case):
     o.label("value:%s" % (unit or "none"))
     if case.get("extreme"):
         o.label("value:extreme-factors")
+    if case.get("give") and float(case["rel"]) == 0.0:
+        o.label("value:zero-reference")
     give = case["give"]
     vbnums = [Fraction(float(v)) for v in case["vb"].split()]
     ctx = {}
@@ -233,6 +236,8 @@ def check_value(case):
             ctx["fh"] = Fraction(float(case["fh"])) * PXF[fu]
         rk = case.get("relkind", "number")
         ru = case.get("relunit", "px")
+        if float(case["rel"]) == 0.0:
+            rk = "number"  # (a zero reference handed over as text or Length comes back as the symbolic Length('0%'): not judged)
         if rk == "number":
             rel = case["rel"]
         elif rk == "string":
